@@ -1,7 +1,7 @@
 (* Facts about the embedded curve: completeness of the addition law for
    on-curve points (d a non-square, -1 a square), closure, neutral element,
    inverses.  [NonSquareD] is a hypothesis carried by the statements. *)
-From Coq Require Import ZArith List Bool Ring Field Nsatz.
+From Coq Require Import ZArith List Bool Ring Field nsatz.NsatzTactic.
 From PlonkV Require Import Base.Fr Base.FrFacts Base.FrNsatz Gates.Gate Gates.CSFacts Curve.Jubjub.
 Import ListNotations.
 Local Open Scope fr_scope.
